@@ -22,6 +22,23 @@ HeaderOK9(img, kind) ==
   /\ \A i \in 1..Len(img.zoomDir) : /\ img.zoomDir[i][2] <= img.zoomDir[i][3] /\ img.zoomDir[i][3] + 48 <= img.fileLen
                                     /\ img.zoomDir[i][2] >= img.fullIndexOffset
   /\ \A i \in 2..Len(img.zoomDir) : img.zoomDir[i-1][1] < img.zoomDir[i][1]          \* reductions strictly increasing
+  \* fields bigtools' own reader never looks at, but the UCSC library and pyBigWig do ("extra" may be absent in older recorded images)
+  /\ ("extensionOffset" \in DOMAIN img =>
+        /\ (img.extensionOffset = 0 \/ (img.extensionOffset >= 64 + 24 * img.zoomLevels /\ img.extensionOffset + 64 <= img.fileLen))
+        /\ \A i \in 1..Len(img.zoomDirReserved) : img.zoomDirReserved[i] = 0
+        /\ (kind = "bw" => img.fieldCount = 0 /\ img.definedFieldCount = 0 /\ img.autoSqlOffset = 0)
+        /\ (kind = "bb" => img.fieldCount >= 3 /\ img.definedFieldCount <= img.fieldCount)
+        \* the separately addressed regions do not overlap each other or the data: autoSql text (NUL-terminated), total summary (40 bytes),
+        \* chromosome tree (at least header + one node header), data count + data blocks
+        /\ LET dataEnd == IF Len(img.blocks) = 0 THEN img.fullDataOffset + 8 ELSE img.blocks[Len(img.blocks)].off + img.blocks[Len(img.blocks)].size
+               Disjoint(a, an, b, bn) == a + an <= b \/ b + bn <= a
+               asq == img.autoSqlLen + 1 IN
+           /\ Disjoint(img.chromTreeOffset, 36, img.fullDataOffset, dataEnd - img.fullDataOffset)
+           /\ (img.totalSummaryOffset # 0 => /\ Disjoint(img.totalSummaryOffset, 40, img.chromTreeOffset, 36)
+                                              /\ Disjoint(img.totalSummaryOffset, 40, img.fullDataOffset, dataEnd - img.fullDataOffset))
+           /\ (img.autoSqlOffset # 0 => /\ Disjoint(img.autoSqlOffset, asq, img.chromTreeOffset, 36)
+                                         /\ Disjoint(img.autoSqlOffset, asq, img.fullDataOffset, dataEnd - img.fullDataOffset)
+                                         /\ (img.totalSummaryOffset # 0 => Disjoint(img.autoSqlOffset, asq, img.totalSummaryOffset, 40))))
 
 ChromTreeOK9(ct, usedChroms, sizes, sortedInput) ==      \* ct.chroms: <<nameIdx, id, size, keyLen>>
   /\ ct.magic = "78CA8C91" /\ ct.valSize = 8 /\ ct.blockSize >= 1
@@ -73,6 +90,7 @@ WellFormed(img, kind, usedChroms, sizes, sortedInput) ==
   /\ TreeOK9(img.index, img.fullIndexOffset, img.blocks)
   /\ BlocksOK9(img, kind, img.blocks, img.index, img.fullDataOffset + 8, img.index.itemsPerSlot)
   /\ (kind = "bw" => img.dataCount = Len(img.blocks))
+  /\ (kind = "bb" => img.dataCount = SeqSum(Map(LAMBDA b : b.nitems, img.blocks)))      \* bigBed: the number of entries (bigBedItemCount reads it)
   /\ (kind = "bw" => \A i \in 1..Len(img.blocks) : img.blocks[i].hs = img.blocks[i].minstart /\ img.blocks[i].he = img.blocks[i].maxend)
   /\ \A k \in 1..Len(img.zooms) :
        LET z == img.zooms[k] IN
